@@ -337,6 +337,71 @@ PROPS["C18"] = dict(
                       "op:sensitive_duplicate": 20},
             "thorough": {"evaluations": 100000}})
 
+PROPS["C19"] = dict(
+    module="nv.props.iso", level="exploration",
+    shards={"quick": 8, "thorough": 16},
+    timeout={"quick": 1200, "thorough": 7200},
+    rule="pairs of environments (same scenario, same layout with different "
+    "content incl. two seeds of a generated benchmark, different layouts, "
+    "different modes); each environment's operations (construct, reset, "
+    "step under a scripted draw, mask) are chosen by a solo pilot run, then "
+    "all merges of the two sequences are executed when both are short (<= 4 "
+    "operations each: 20-70 merges) and random merges otherwise, comparing "
+    "every operation's result (arrays, reward, flags, info, state bytes, "
+    "readable decoding of state and last observation) with the solo trace; "
+    "different-layout pairs are additionally run in shim mode; non-trivial "
+    "= distinct (pair, schedule) with a switch between the environments "
+    "after both changed their state, and distinct shim-mode schedules",
+    assumptions=[
+        "a divergence is attributed to the recorded finding only when the "
+        "process-global HostVector layout differs from the layout snapshot "
+        "taken when the diverging environment was constructed; in shim mode "
+        "(layout re-installed before each operation) nothing is tolerated",
+        "solo traces are produced in-process and, for a sample, in a fresh "
+        "interpreter",
+        "held = no unlisted divergence on the pairs and schedules observed"],
+    floors={"quick": {"schedules_plain": 1500, "schedules_shim": 600,
+                      "schedules_same_layout": 500,
+                      "pairs_same_layout": 20, "pairs_different_layout": 10,
+                      "pairs_with_all_merges_enumerated": 15,
+                      "schedules_switching_after_both_changed": 150,
+                      "solo_baselines_from_fresh_process": 3},
+            "thorough": {"schedules_plain": 30000, "schedules_shim": 12000}})
+
+PROPS["C20"] = dict(
+    module="nv.props.bound", level="exploration",
+    shards={"quick": 8, "thorough": 16},
+    timeout={"quick": 1500, "thorough": 10800},
+    rule="scenarios in the cost/value domain (costs >= 1, non-sensitive "
+    "values <= 1): a solvable-by-construction family of trees rooted at the "
+    "internet (chains, stars, sensitive leaves under a common parent, "
+    "chords, second entry points; <= 9 hosts; root exploits and user "
+    "exploit + escalation variants; values incl. 1 and -5; discovery values "
+    "0/1), the deterministic ScenarioSynth stream and the shipped files up "
+    "to 8 hosts; for each the whole monotone episode graph is executed on "
+    "the real environment (generative_step, succeeding draws) and the exact "
+    "maximum reward of a goal-reaching episode is compared with the "
+    "advertised bound; the hop clause is decided on the same scenario with "
+    "all firewalls opened; non-trivial = distinct scenarios whose sensitive "
+    "subnets' shortest routes from the internet share a subnet (branching)",
+    assumptions=[
+        "only exploits, escalations and subnet scans are expanded (other "
+        "actions cannot change the state and cost >= 1 in the domain, so "
+        "they never belong to a maximal episode)",
+        "failed draws only add cost, so the maximum is attained with every "
+        "draw succeeding",
+        "exact only for scenarios whose monotone state graph fits the cap "
+        "(2 500 states quick, 200 000 thorough); larger ones are counted "
+        "as skipped, never as held"],
+    floors={"quick": {"scenarios_solved_exactly": 120,
+                      "branching_scenarios": 25, "hop_clause_evaluated": 100,
+                      "bound_attained_exactly": 5,
+                      "hop_clause_bruteforce_only": 3,
+                      "hop_clause_on_large_topologies": 300,
+                      "hop_clause_with_4plus_sensitive_subnets": 60},
+            "thorough": {"scenarios_solved_exactly": 3000,
+                         "branching_scenarios": 600}})
+
 NOT_APPLICABLE = {}
 
 ENGINES = [
@@ -373,6 +438,18 @@ ENGINES.append(
      "kind_free_text": "random valid YAML documents + independent reader "
      "(field and behaviour differential); fault catalogue applied to valid "
      "bases, loader must raise"})
+ENGINES.append(
+    {"name": "iso", "path": "nv/props/iso.py",
+     "serves_properties": ["C19"],
+     "kind_free_text": "two-environment interleaver: solo vs interleaved "
+     "traces over all / sampled merges, layout-mechanism classifier, shim "
+     "mode"})
+ENGINES.append(
+    {"name": "bound", "path": "nv/props/bound.py",
+     "serves_properties": ["C20"],
+     "kind_free_text": "exact optimisation over the monotone episode graph "
+     "of the real environment (memoised search through generative_step), "
+     "compared with the advertised bound and hop count"})
 
 NOTES = ("Runtime monitoring of the real code only; no compiler sanitizers or "
          "race detectors are used because nasim is single-threaded pure "
